@@ -24,6 +24,18 @@ type Timer struct {
 	e        *exec
 }
 
+// never is the deadline of timers that cannot fire within any horizon
+// ("forever" keep-alives are math.MaxInt64 durations).
+const never = time.Duration(1 << 62)
+
+func (e *exec) deadlineFor(d time.Duration) time.Duration {
+	dl := e.now + d
+	if d > 0 && (dl < e.now || dl > never) {
+		return never
+	}
+	return dl
+}
+
 func (e *exec) clock() *thread { return e.threads[1] }
 
 func (e *exec) clockEvent() {
@@ -45,7 +57,7 @@ func (e *exec) clockAcqRel() {
 func (e *exec) newTimer(d time.Duration, label string) *Timer {
 	t := e.cur
 	t.nobj++
-	tm := &Timer{deadline: e.now + d, armed: true, label: label, sid: mix(t.sid, uint64(t.nobj)+1<<32), e: e}
+	tm := &Timer{deadline: e.deadlineFor(d), armed: true, label: label, sid: mix(t.sid, uint64(t.nobj)+1<<32), e: e}
 	e.clockAcqRel()
 	tm.armVC = t.vc.clone()
 	e.timers = append(e.timers, tm)
@@ -157,7 +169,7 @@ func (tm *Timer) Reset(d time.Duration) bool {
 	e.clockAcqRel()
 	was := tm.armed
 	tm.drain()
-	tm.deadline = e.now + d
+	tm.deadline = e.deadlineFor(d)
 	tm.armVC = e.cur.vc.clone()
 	if !tm.armed {
 		tm.armed = true
@@ -251,7 +263,7 @@ func Sleep(d time.Duration) {
 		e.point(&op{kind: opYield, label: "Sleep(0)"})
 		return
 	}
-	e.point(&op{kind: opSleep, label: fmt.Sprintf("Sleep(%v)", d), until: e.now + d})
+	e.point(&op{kind: opSleep, label: fmt.Sprintf("Sleep(%v)", d), until: e.deadlineFor(d)})
 	e.clockAcq()
 }
 
@@ -267,7 +279,7 @@ func VirtualNow() time.Duration {
 func PendingTimers() int {
 	n := 0
 	for _, t := range ex.timers {
-		if t.armed {
+		if t.armed && t.deadline < never {
 			n++
 		}
 	}
